@@ -225,7 +225,8 @@ end
 
 def cfg : Cfg :=
   { rfx := { f30 := Generated.RANGE_FIX_F30, f51 := Generated.RANGE_FIX_F51 },
-    rfnReverse := Generated.COMPILE_RFN_REVERSE, augRmSwap := Generated.COMPILE_AUG_RM_SWAP }
+    rfnReverse := Generated.COMPILE_RFN_REVERSE, augRmSwap := Generated.COMPILE_AUG_RM_SWAP,
+    fixF390 := Generated.COMPILE_FIX_F390, fixF392 := Generated.COMPILE_FIX_F392 }
 
 def showErr : Err → String | .fail => "err Fail" | .fuel => "err Fuel"
 
